@@ -554,6 +554,7 @@ fn c19_tuple_eq_len2() {
     assert!((vx == vy) == (vy == vx));
     std::mem::forget((vx, vy, kx, ky));
 }
+// (a bounded harness for string equality — two symbolic 2-byte ASCII strings — did not finish in 600 s: strings are probed only)
 harness!(c19_mut_identity, {
     use crate::variable::Mut;
     let a: i64 = kani::any();
